@@ -40,12 +40,70 @@ func stripIface(v ssa.Value) ssa.Value {
 }
 
 // poolGetter: fn only takes an object out of a pool and hands it to its caller
-// (every return value is the result of one pool.Get behind assertions); resets
-// reports whether it Resets the object on the way. Calls of such a wrapper are
-// the acquisitions the typestate is checked for, in the callers.
+// (its first result is, on every return, the result of one pool.Get behind
+// assertions and local variables); resets reports whether it Resets the object
+// on the way; release is the index of a second result that is a closure putting
+// the object back (buf, release := acquire(); defer release()), or -1. Calls of
+// such a wrapper are the acquisitions the typestate is checked for, in the callers.
 type poolWrapper struct {
-	pool   *ssa.Global
-	resets bool
+	pool    *ssa.Global
+	resets  bool
+	release int
+}
+
+// objCells: local variables (Allocs) that only ever hold the given object - a
+// variable captured by a closure, or a named result, lives in memory.
+func objCells(fn *ssa.Function, direct func(ssa.Value) bool) map[*ssa.Alloc]bool {
+	cells := map[*ssa.Alloc]bool{}
+	isObj := func(v ssa.Value) bool {
+		v = stripIface(v)
+		if direct(v) {
+			return true
+		}
+		if ld, ok := v.(*ssa.UnOp); ok && ld.Op == token.MUL {
+			if al, ok := ld.X.(*ssa.Alloc); ok && cells[al] {
+				return true
+			}
+		}
+		return false
+	}
+	for changed := true; changed; {
+		changed = false
+		stores := map[*ssa.Alloc][]ssa.Value{}
+		for _, b := range fn.Blocks {
+			for _, in := range b.Instrs {
+				if st, ok := in.(*ssa.Store); ok {
+					if al, ok := st.Addr.(*ssa.Alloc); ok {
+						stores[al] = append(stores[al], st.Val)
+					}
+				}
+			}
+		}
+		for al, vs := range stores {
+			if cells[al] {
+				continue
+			}
+			all := len(vs) > 0
+			for _, v := range vs {
+				if !isObj(v) {
+					// the zero value stored at declaration is not a different object
+					if k, ok := v.(*ssa.Const); ok && k.IsNil() {
+						continue
+					}
+					// x = x
+					if ld, ok := stripIface(v).(*ssa.UnOp); ok && ld.Op == token.MUL && ld.X == ssa.Value(al) {
+						continue
+					}
+					all = false
+				}
+			}
+			if all {
+				cells[al] = true
+				changed = true
+			}
+		}
+	}
+	return cells
 }
 
 func (c *Ctx) poolGetter(fn *ssa.Function) (poolWrapper, bool) {
@@ -54,45 +112,120 @@ func (c *Ctx) poolGetter(fn *ssa.Function) (poolWrapper, bool) {
 	}
 	var get *ssa.Call
 	var pool *ssa.Global
-	resets := false
 	for _, b := range fn.Blocks {
 		for _, in := range b.Instrs {
-			switch x := in.(type) {
-			case *ssa.Call:
+			if x, ok := in.(*ssa.Call); ok {
 				if p, ok := poolOf(x.Common(), "Get"); ok {
 					if get != nil {
 						return poolWrapper{}, false
 					}
 					get, pool = x, p
-					continue
 				}
-				cc := x.Common()
-				if !cc.IsInvoke() && len(cc.Args) > 0 && cc.StaticCallee() != nil && cc.StaticCallee().Name() == "Reset" && get != nil && stripIface(cc.Args[0]) == ssa.Value(get) {
-					resets = true
-					continue
-				}
-				return poolWrapper{}, false // does something else: not a pure wrapper
-			case *ssa.Store, *ssa.MapUpdate, *ssa.Send, *ssa.Go, *ssa.Defer:
-				return poolWrapper{}, false
 			}
 		}
 	}
 	if get == nil {
 		return poolWrapper{}, false
 	}
-	nret := 0
+	cells := objCells(fn, func(v ssa.Value) bool { return v == ssa.Value(get) })
+	isObj := func(v ssa.Value) bool {
+		v = stripIface(v)
+		if v == ssa.Value(get) {
+			return true
+		}
+		if ld, ok := v.(*ssa.UnOp); ok && ld.Op == token.MUL {
+			if al, ok := ld.X.(*ssa.Alloc); ok && cells[al] {
+				return true
+			}
+		}
+		return false
+	}
+	// a closure that puts the object back
+	releaser := func(v ssa.Value) bool {
+		if ld, ok := v.(*ssa.UnOp); ok && ld.Op == token.MUL {
+			if al, ok := ld.X.(*ssa.Alloc); ok && al.Referrers() != nil {
+				for _, r := range *al.Referrers() {
+					if st, ok := r.(*ssa.Store); ok && st.Addr == ssa.Value(al) {
+						v = st.Val
+					}
+				}
+			}
+		}
+		mc, ok := v.(*ssa.MakeClosure)
+		if !ok {
+			return false
+		}
+		cf, ok := mc.Fn.(*ssa.Function)
+		if !ok {
+			return false
+		}
+		for _, b := range cf.Blocks {
+			for _, in := range b.Instrs {
+				ci, ok := in.(ssa.CallInstruction)
+				if !ok {
+					continue
+				}
+				if p, ok := poolOf(ci.Common(), "Put"); ok && p == pool && len(ci.Common().Args) > 1 {
+					arg := stripIface(ci.Common().Args[1])
+					if ld, ok := arg.(*ssa.UnOp); ok && ld.Op == token.MUL {
+						if fv, ok := ld.X.(*ssa.FreeVar); ok {
+							for i, f := range cf.FreeVars {
+								if f == fv && i < len(mc.Bindings) {
+									if al, ok := mc.Bindings[i].(*ssa.Alloc); ok && cells[al] {
+										return true
+									}
+								}
+							}
+						}
+					}
+				}
+			}
+		}
+		return false
+	}
+	resets := false
 	for _, b := range fn.Blocks {
-		if r, ok := b.Instrs[len(b.Instrs)-1].(*ssa.Return); ok {
-			nret++
-			if len(r.Results) != 1 || stripIface(r.Results[0]) != ssa.Value(get) {
+		for _, in := range b.Instrs {
+			switch x := in.(type) {
+			case *ssa.Call:
+				if x == get {
+					continue
+				}
+				cc := x.Common()
+				if !cc.IsInvoke() && len(cc.Args) > 0 && cc.StaticCallee() != nil && cc.StaticCallee().Name() == "Reset" && isObj(cc.Args[0]) {
+					resets = true
+					continue
+				}
+				return poolWrapper{}, false // does something else: not a pure wrapper
+			case *ssa.Store:
+				if _, local := x.Addr.(*ssa.Alloc); !local {
+					return poolWrapper{}, false
+				}
+			case *ssa.MapUpdate, *ssa.Send, *ssa.Go, *ssa.Defer:
 				return poolWrapper{}, false
 			}
 		}
 	}
-	if nret != 1 {
-		resets = resets && len(fn.Blocks) == 1
+	nret := 0
+	w := poolWrapper{pool: pool, resets: resets, release: -1}
+	for _, b := range fn.Blocks {
+		if r, ok := b.Instrs[len(b.Instrs)-1].(*ssa.Return); ok {
+			nret++
+			if len(r.Results) == 0 || len(r.Results) > 2 || !isObj(r.Results[0]) {
+				return poolWrapper{}, false
+			}
+			if len(r.Results) == 2 {
+				if !releaser(r.Results[1]) {
+					return poolWrapper{}, false
+				}
+				w.release = 1
+			}
+		}
 	}
-	return poolWrapper{pool, resets}, nret > 0
+	if nret != 1 {
+		w.resets = w.resets && len(fn.Blocks) == 1
+	}
+	return w, nret > 0
 }
 
 // poolPutter: fn puts its idx-th parameter back into a pool (a release wrapper).
@@ -138,9 +271,25 @@ func (c *Ctx) Pools(pkgs ...string) []core.Ob {
 				}
 				pool, ok := poolOf(call.Common(), "Get")
 				resets := false
+				var obj, release ssa.Value = call, nil
 				if !ok {
 					if w, isW := c.poolGetter(call.Common().StaticCallee()); isW {
 						pool, resets, ok = w.pool, w.resets, true
+						if call.Common().Signature().Results().Len() > 1 && call.Referrers() != nil {
+							obj = nil
+							for _, r := range *call.Referrers() {
+								if ex, isEx := r.(*ssa.Extract); isEx {
+									if ex.Index == 0 {
+										obj = ex
+									} else if ex.Index == w.release {
+										release = ex
+									}
+								}
+							}
+							if obj == nil {
+								continue // the object is dropped: nothing to track
+							}
+						}
 					}
 				}
 				if !ok {
@@ -148,7 +297,7 @@ func (c *Ctx) Pools(pkgs ...string) []core.Ob {
 				}
 				k++
 				nGets++
-				obs = append(obs, c.poolObject(fn, call, pool, k, resets)...)
+				obs = append(obs, c.poolObject(fn, call, obj, release, pool, k, resets)...)
 			}
 		}
 	}
@@ -160,13 +309,45 @@ func (c *Ctx) Pools(pkgs ...string) []core.Ob {
 	return obs
 }
 
-func (c *Ctx) poolObject(fn *ssa.Function, get *ssa.Call, pool *ssa.Global, ord int, resetByGetter bool) []core.Ob {
+func (c *Ctx) poolObject(fn *ssa.Function, get *ssa.Call, objVal, release ssa.Value, pool *ssa.Global, ord int, resetByGetter bool) []core.Ob {
 	base := fmt.Sprintf("%s#pool(%s)%d", core.FnName(fn), pool.Name(), ord)
 	mk := func(kind, want string) core.Ob {
 		return core.Ob{Rule: "R-POOL", Key: base + "." + kind, Pos: c.P.Pos(get.Pos()), Func: core.FnName(fn), Armed: true, Want: want, Status: core.OK}
 	}
-	// the pooled object: every value that is the Get result behind assertions
-	isObj := func(v ssa.Value) bool { return stripIface(v) == ssa.Value(get) }
+	// the pooled object: every value that is the Get result behind assertions, or a load of a
+	// local variable that only ever holds it (a variable captured by a closure lives in memory)
+	cells := objCells(fn, func(v ssa.Value) bool { return v == objVal })
+	isObj := func(v ssa.Value) bool {
+		v = stripIface(v)
+		if v == objVal {
+			return true
+		}
+		if ld, ok := v.(*ssa.UnOp); ok && ld.Op == token.MUL {
+			if al, ok := ld.X.(*ssa.Alloc); ok && cells[al] {
+				return true
+			}
+		}
+		return false
+	}
+	// the release closure handed out together with the object (possibly kept in a local)
+	isRelease := func(v ssa.Value) bool {
+		if release == nil {
+			return false
+		}
+		if v == release {
+			return true
+		}
+		if ld, ok := v.(*ssa.UnOp); ok && ld.Op == token.MUL {
+			if al, ok := ld.X.(*ssa.Alloc); ok && al.Referrers() != nil {
+				for _, r := range *al.Referrers() {
+					if st, ok := r.(*ssa.Store); ok && st.Addr == ssa.Value(al) && st.Val == release {
+						return true
+					}
+				}
+			}
+		}
+		return false
+	}
 
 	// ---- derived (aliasing) values
 	derived := map[ssa.Value]bool{}
@@ -326,13 +507,26 @@ func (c *Ctx) poolObject(fn *ssa.Function, get *ssa.Call, pool *ssa.Global, ord 
 					s.put = true
 					continue
 				}
+				if isRelease(x.Common().Value) {
+					s.put = true
+					continue
+				}
 				if c.putsBack(x.Common(), pool, isObj) {
 					s.put = true
+					continue
+				}
+			case *ssa.Store:
+				// keeping the object in a local variable of its own is not a use
+				if al, ok := x.Addr.(*ssa.Alloc); ok && cells[al] {
 					continue
 				}
 			case *ssa.Call:
 				cc := x.Common()
 				if p, ok := poolOf(cc, "Put"); ok && p == pool && len(cc.Args) > 1 && isObj(cc.Args[1]) {
+					s.put = true
+					continue
+				}
+				if isRelease(cc.Value) {
 					s.put = true
 					continue
 				}
@@ -362,7 +556,7 @@ func (c *Ctx) poolObject(fn *ssa.Function, get *ssa.Call, pool *ssa.Global, ord 
 			}
 			if s.got && s.fresh {
 				for _, op := range insn.Operands(nil) {
-					if *op != nil && isObj(*op) && *op != ssa.Value(get) {
+					if *op != nil && isObj(*op) && *op != ssa.Value(get) && *op != objVal {
 						reset.Status = core.Violated
 						reset.Got = "the pooled object is used before Reset on some path: " + insn.String()
 						reset.Pos = c.P.Pos(insn.Pos())
